@@ -53,6 +53,8 @@ for d in sorted(glob.glob(V + '/seeded/*/meta.json')):
         st = 'needs fault injection → C14'
     if 'needed the event-thread half' in note:
         st = 'caught once E5 existed'
+    if m.get('neutralised_by'):
+        st += '; harmless since fix %s (8.5)' % m['neutralised_by']
     nm += 1
     mut.append("| %s | %s | %s | %s: %s | %s |" % (m['id'], m['property'], title[:140].replace('|', '/'),
                det.get('check', '').replace('bin/check ', '').replace(' --tier quick', ''),
